@@ -189,7 +189,21 @@ func (*compiler).VisitUnaryExpr [C02, C01]
   replay - replay_templates/c02_unary.sh - : op = e.Operator ; cls = tyClassOf(e.Rhs) ; res = ast.resultUn(e.Operator, tyClassOf(e.Rhs))
 
 // --- binary operators on numbers: shared table in package ast ---
+// C01: the comparison instruction of an ordering operator has the predicate the operator means (signed or unsigned
+// variant - which of the two is the signedness discipline's business)
+spec icmpMeans(op ast.BinaryOperator, p enum.IPred) bool :=
+     (op == ast.BIN_LESS && (p == enum.IPredSLT || p == enum.IPredULT))
+  || (op == ast.BIN_LESS_EQ && (p == enum.IPredSLE || p == enum.IPredULE))
+  || (op == ast.BIN_GREATER && (p == enum.IPredSGT || p == enum.IPredUGT))
+  || (op == ast.BIN_GREATER_EQ && (p == enum.IPredSGE || p == enum.IPredUGE))
+spec fcmpMeans(op ast.BinaryOperator, p enum.FPred) bool :=
+     (op == ast.BIN_LESS && p == enum.FPredOLT) || (op == ast.BIN_LESS_EQ && p == enum.FPredOLE)
+  || (op == ast.BIN_GREATER && p == enum.FPredOGT) || (op == ast.BIN_GREATER_EQ && p == enum.FPredOGE)
+spec orderingOp(op ast.BinaryOperator) bool :=
+  op == ast.BIN_LESS || op == ast.BIN_LESS_EQ || op == ast.BIN_GREATER || op == ast.BIN_GREATER_EQ
 func (*compiler).VisitBinaryExpr#2 [C02, C01]
+  callsite NewICmp requires orderingOp(e.Operator) ==> icmpMeans(e.Operator, arg1)
+  callsite NewFCmp requires orderingOp(e.Operator) ==> fcmpMeans(e.Operator, arg1)
   cases e.Operator in {ast.BIN_XOR, ast.BIN_PLUS, ast.BIN_MINUS, ast.BIN_MULT, ast.BIN_DIV, ast.BIN_MOD, ast.BIN_LOGIC_AND, ast.BIN_LOGIC_OR, ast.BIN_LOGIC_XOR, ast.BIN_LEFT_SHIFT, ast.BIN_RIGHT_SHIFT, ast.BIN_LESS, ast.BIN_GREATER, ast.BIN_LESS_EQ, ast.BIN_GREATER_EQ}
   cases tyClassOf(e.Lhs) in {1, 2, 3, 4}
   cases tyClassOf(e.Rhs) in {1, 2, 3, 4}
